@@ -2316,7 +2316,11 @@ def _compute_arguments_dict_matching_score(args: Any, ref_args: Any) -> float:
             return 0.0
     elif isinstance(ref_args, ComparisonExpression):
         return ref_args.compare(args)
-    elif not isinstance(ref_args, type(args)):
+    elif not isinstance(ref_args, type(args)) and not (
+        # A dictionary taken from a flow variable is an AttributeDict (a dict subclass)
+        isinstance(ref_args, dict)
+        and isinstance(args, dict)
+    ):
         return 0.0
     elif isinstance(ref_args, dict):
         argument_filter = ["return_value", "activated", "source_flow_instance_uid"]
